@@ -110,6 +110,37 @@ theorem one_representative_per_orbit (N : Nat) (ops : List (Nat → Option Nat))
     have h2 : m' ≤ Nat.find hex := hirr _ (htrans _ _ _ (hsymm x m' hx hm') hm_reach)
     omega
 
+/-- T2 instantiated for an ordered pair of blocks.  The operations of `find_irreducible_Rab(block1, block2)` are the maps
+    `pairAct np2 nR (map1 g) (map2 g) (rimg g)`: site `a` of block1 is moved by the atom map of block1, site `b` of block2 by
+    the atom map of BLOCK2 (off-diagonal pairs of different multi-site blocks use two different permutations), and the
+    R-vector by `R ↦ g R + T1(a) − T2(b)`.  If reachability through these maps is symmetric and transitive, the loop keeps
+    exactly the first triple `(a, b, iR)` of every orbit.  (The correspondence check builds exactly these tables from the
+    real `atommap_list[block1]`, `atommap_list[block2]`, `get_atom_R_map` and `index_R` for every ordered block pair.) -/
+theorem irreducible_block_pair (np1 np2 nR : Nat)
+    (ops : List ((Nat → Nat) × (Nat → Nat) × (Nat → Nat → Nat → Option Nat)))
+    (hsymm : ∀ x y, x < np1 * np2 * nR →
+      Reach (ops.map fun g => pairAct np2 nR g.1 g.2.1 g.2.2) x y → Reach (ops.map fun g => pairAct np2 nR g.1 g.2.1 g.2.2) y x)
+    (htrans : ∀ x y z, Reach (ops.map fun g => pairAct np2 nR g.1 g.2.1 g.2.2) x y →
+      Reach (ops.map fun g => pairAct np2 nR g.1 g.2.1 g.2.2) y z → Reach (ops.map fun g => pairAct np2 nR g.1 g.2.1 g.2.2) x z)
+    (x : Nat) (hx : x < np1 * np2 * nR) :
+    view (findIrreducible (np1 * np2 * nR) (ops.map fun g => pairAct np2 nR g.1 g.2.1 g.2.2)) x = true ↔
+      ∀ y, Reach (ops.map fun g => pairAct np2 nR g.1 g.2.1 g.2.2) x y → x ≤ y :=
+  irreducible_iff_orbit_min _ _ hsymm htrans x hx
+
+/-- two different two-site blocks, one R-vector; the operation swaps the sites of block A and fixes those of block B.
+    With each block's own map the triple (a₀,b₀) (index 0) is sent to (a₁,b₀) (index 2); with block A's map used for both
+    sites it would be sent to (a₁,b₁) (index 3), a triple of a different orbit — the seeded defect V-C20. -/
+example :
+    let swap : Nat → Nat := fun a => 1 - a
+    let fix : Nat → Nat := fun b => b
+    let e : Nat → Nat := fun a => a
+    findIrreducible 4 [pairAct 2 1 e e (fun _ _ _ => some 0), pairAct 2 1 swap fix (fun _ _ _ => some 0)]
+      = [true, true, false, false] ∧
+    findIrreducible 4 [pairAct 2 1 e e (fun _ _ _ => some 0), pairAct 2 1 swap swap (fun _ _ _ => some 0)]
+      = [true, true, false, false] ∧
+    pairAct 2 1 swap fix (fun _ _ _ => some 0) 0 = some 2 ∧ pairAct 2 1 swap swap (fun _ _ _ => some 0) 0 = some 3 := by
+  decide +kernel
+
 /-- an operation of a group acting on the `N` points, in the form the model consumes -/
 def actOf {G : Type} {N : Nat} [Group G] [MulAction G (Fin N)] (g : G) : Nat → Option Nat :=
   fun x => if h : x < N then some ((g • (⟨x, h⟩ : Fin N)).val) else none
